@@ -272,5 +272,5 @@ def replay(case):
     c = {k: v for k, v in case.items() if k not in ('observed_order', 'ref', 'edits', 'edit')}
     vs, _ = check_model(m, case['acyclic'], c)
     if 'edits' in case:
-        vs = [v for v in vs if v['case'].get('edits') == case['edits'] and v['case'].get('ref') == case['ref']] or vs
+        vs = [v for v in vs if v['case'].get('edits') == case['edits'] and v['case'].get('ref') == case['ref']]
     return vs
